@@ -483,12 +483,12 @@ type GuardSpec interface {
 // results with NonNil set - must be non-nil.
 type CallGuard struct {
 	Name    string
-	Callees []string                      // fname()s or "invoke:..." names
-	Want    bool                          // required value of the bool result
-	ArgOK   func(call *ssa.Call) bool     // optional argument constraint
-	Depth   int                           // helper-summary depth (0 = default 3)
-	Result  func(call *ssa.Call) int      // optional: which result index carries the verdict
-	ErrOnly bool                          // consider only the error result
+	Callees []string                  // fname()s or "invoke:..." names
+	Want    bool                      // required value of the bool result
+	ArgOK   func(call *ssa.Call) bool // optional argument constraint
+	Depth   int                       // helper-summary depth (0 = default 3)
+	Result  func(call *ssa.Call) int  // optional: which result index carries the verdict
+	ErrOnly bool                      // consider only the error result
 	seen    map[*ssa.Function]map[bool]bool
 }
 
@@ -784,7 +784,7 @@ type Site struct {
 
 type MustPass struct {
 	P      *Program
-	Scope  func(*ssa.Function) bool                     // callees to descend into
+	Scope  func(*ssa.Function) bool // callees to descend into
 	IsSink func(fn *ssa.Function, ins ssa.Instruction) bool
 	Guard  GuardSpec
 	memo   map[*ssa.Function][]Site
